@@ -50,6 +50,9 @@ class IdealManager(object):
 
     def session_exists(self, rid):
         self.calls.append(("session_exists", rid))
+        if self.sessions == "partial":
+            # sessions with everybody but one member (set by the harness once the member list is known)
+            return not bool(SC.val_eq(rid, self.sessionless)) if H.sym(self.ctx) else rid != self.sessionless
         return self.sessions
 
     def _env(self, kind, rid, data):
@@ -321,10 +324,11 @@ def h_send_group_first(ctx, sessions):
         ctx.assume(p2 != me)
     elif p1 == p2 or me in (p1, p2):
         raise core.Infeasible()
+    mgr.sessionless = p2.split("@")[0]
     bottom.inject(N("iq", {"id": hooks.dict_get(iqs[0].attributes, "id"), "type": "result", "from": to},
                     [N("group", {"subject": "s", "creation": "1400000000", "creator": me, "s_t": "1400000001", "id": "1-2", "s_o": me},
                        [N("participant", {"jid": me, "type": "admin"}), N("participant", {"jid": p1}), N("participant", {"jid": p2})])]))
-    if not sessions:
+    if sessions is not True:
         kiq = [n for n in bottom.down if n.tag == "iq"][1:]
         obs.append(("members without session: exactly one key request, still no message", len(kiq) == 1 and not [n for n in bottom.down if n.tag == "message"]))
         if len(kiq) != 1:
@@ -334,15 +338,21 @@ def h_send_group_first(ctx, sessions):
         fx = [c09._load_fixture(m, c)[1] for m, c, _l, _d in found if c == "ResultGetKeysIqProtocolEntityTest"][0]
         user = fx.getChild("list").children[0]
         bottom.inject(N("iq", {"id": hooks.dict_get(kiq[0].attributes, "id"), "type": "result", "from": "s.whatsapp.net"},
-                        [N("list", {}, [N("user", {"jid": p1}, list(user.children)), N("user", {"jid": p2}, list(user.children))])]))
+                        [N("list", {}, ([N("user", {"jid": p1}, list(user.children))] if sessions is False else []) + [N("user", {"jid": p2}, list(user.children))])]))
     out = [n for n in bottom.down if n.tag != "iq"]
     obs += _envelope_obs(ctx, out, body, mid, to)
     msgs = [n for n in out if n.tag == "message"]
     if len(msgs) == 1:
         parts = msgs[0].getAllChildren("participants")
         tos = [t for p in parts for t in p.children]
-        obs.append(("sender key goes to each other member exactly once, not to myself", len(tos) == 2))
+        if sessions == "partial":
+            # the library hands the sender key only to the members whose keys it just fetched; the others obtain it through the retry
+            # path (retry-loop cases), which the property allows -- so only "never twice, never to nobody" is demanded here
+            obs.append(("sender key goes to the member without session, to nobody twice", 1 <= len(tos) <= 2))
+        else:
+            obs.append(("sender key goes to each other member exactly once, not to myself", len(tos) == 2))
         obs.append(("one group ciphertext", len(msgs[0].getAllChildren("enc")) == 1))
+        obs.append(("a first group message is addressed to the whole group, not directed at one participant", hooks.dict_get(msgs[0].attributes, "participant") is None))
     obs.append(("group body encrypted exactly once", len([c for c in mgr.calls if c[0] == "group_encrypt"]) == 1))
     return obs
 
@@ -711,7 +721,8 @@ def h_padding(ctx):
 def cases(tier):
     cs = [dict(name="send[1:1,session]", fn=h_send_direct, args=("contact",)), dict(name="send[group,sender-key]", fn=h_send_direct, args=("group",)),
           dict(name="send[1:1,no-session]", fn=h_send_no_session), dict(name="send[group,first message,sessions]", fn=h_send_group_first, args=(True,)),
-          dict(name="send[group,first message,no sessions]", fn=h_send_group_first, args=(False,)), dict(name="send[queue-bound]", fn=h_queue_bound), dict(name="retry-receipt", fn=h_retry_receipt), dict(name="group-receipts", fn=h_group_receipts), dict(name="manager-exception-mapping", fn=h_manager_exception_mapping, keep_samples=12),
+          dict(name="send[group,first message,no sessions]", fn=h_send_group_first, args=(False,)),
+          dict(name="send[group,first message,session with all but one member]", fn=h_send_group_first, args=("partial",)), dict(name="send[queue-bound]", fn=h_queue_bound), dict(name="retry-receipt", fn=h_retry_receipt), dict(name="group-receipts", fn=h_group_receipts), dict(name="manager-exception-mapping", fn=h_manager_exception_mapping, keep_samples=12),
           dict(name="pad[real manager]", fn=h_padding)]
     for grp in (False, True):
         for f in (1, 2):
